@@ -244,7 +244,9 @@ def sync_order_rule(ctx, rid, cls="Harvester"):
     ctx.touch(sf, gs)
     sv = [(n, c) for n, c, nm in all_calls(ctx, sf, gs) if nm == saver]
     need(sv, "anchor lost: %s does not call %s" % (sname, saver))
-    if all(norm(c.args[0]) == "self." + attr for n, c in sv):
+    if cls == "Sampler":
+        pass      # identity and ordering for the Sampler are checked by failed_save_rule
+    elif all(norm(c.args[0]) == "self." + attr for n, c in sv):
         st = [n for n in gs.nodes if n.kind == "stmt" and isinstance(n.ast, ast.Assign) and any(path_key(t) == "self." + attr for t in n.ast.targets)]
         p_new = [p for p in sf.positional if p.startswith("new_full")][0]
         fl2 = Flow(gs, {p_new: NOTNONE, "engine": const("h5netcdf" if cls == "Harvester" else "pickle")}).run()
@@ -333,4 +335,34 @@ def engine_tables_rule(ctx, rid):
     else:
         rr.bad(ctx.finding(rid, sd, tests[0].ast if tests else sd.node, "attributes are rewritten under %s instead of exactly the identity tests `val is None / True / False` (e.g. an == / `in` test also rewrites 0, 1, 0.0, 1.0)" % got,
                            construct="attr-rewrite-tests"), "attr rewriting")
+    return rr
+
+
+def failed_save_rule(ctx, rid):
+    """C12 / C15: a failing save must leave the sampler's in-memory table as it
+    was, otherwise a corrected retry appends the same rows a second time
+    (concat is not idempotent, unlike the harvester's merge)."""
+    rr = ctx.rule(rid, "Sampler.save_full_df: the in-memory table is replaced only after the file was written and moved into place", floor=1)
+    prog = ctx.prog
+    sf = prog.need_func(FARM + ".Sampler.save_full_df")
+    g = build_cfg(sf.node)
+    ctx.touch(sf, g)
+    p_new = [p for p in sf.positional if p.startswith("new_full")][0]
+    fl = Flow(g, {p_new: NOTNONE}).run()
+    stores = [n for n in g.nodes if n.id in fl.visited and n.kind == "stmt" and isinstance(n.ast, ast.Assign) and any(path_key(t) == "self._full_df" for t in n.ast.targets)]
+    saves = [(n, c) for n, c, nm in all_calls(ctx, sf, g) if nm == MAN + ".save_df" and n.id in fl.visited]
+    moves = [(n, c) for n, c, nm in all_calls(ctx, sf, g) if nm in ("os.replace", "os.rename") and n.id in fl.visited]
+    need(stores and saves, "anchor lost: save_full_df store / save")
+    last = (moves or saves)[-1][0]
+    early = [s for s in stores if not g.completes_before(last.id, s.id, feasible=fl.feasible)]
+    if early:
+        rr.bad(ctx.finding(rid, sf, early[0].ast, "`%s` replaces the in-memory table before the file is written: if the save fails (full disk, missing directory) the new rows stay in memory although they are not on disk, and the corrected retry -- reap again / sample again -- concatenates them a second time (when no file exists yet to reload from)"
+                           % norm(early[0].ast), construct="memory-before-save"), "memory after save")
+    else:
+        saved = norm(saves[0][1].args[0])
+        stored = norm(stores[0].ast.value)
+        if saved == stored or saved == "self._full_df":
+            rr.ok("save_full_df writes `%s`, moves it into place, then stores it as self._full_df" % saved)
+        else:
+            rr.bad(ctx.finding(rid, sf, stores[0].ast, "save_full_df saves `%s` but keeps `%s` in memory" % (saved, stored), construct="save-store-differ"), "memory = disk")
     return rr
